@@ -87,6 +87,7 @@ func init() {
 		"spop", "sunion", "smembers", // set
 		"zadd", "zrange", "zcard", "zrangebyscore", // zset
 		"cluster", "ping", // special
+		"scan", // the reply holds key names only, which are never compressed
 	} {
 		wkSkipCheckCmdsInDecps[cmd] = struct{}{}
 	}
